@@ -48,7 +48,13 @@ def r34_layer_order(ctx):
     var = None
     shape_ok = True
     pname = getopt.params[1] if len(getopt.params) > 1 else None
-    for s in body[:-1]:
+    steps = body[:-1]
+    if steps and isinstance(steps[0], ast.Assign) and len(steps[0].targets) == 1 and isinstance(steps[0].targets[0], ast.Name) \
+            and isinstance(steps[0].value, ast.Constant) and steps[0].value.value is None:
+        # `v = None` first, then every layer falls back to v (the chain with its start written out)
+        var = steps[0].targets[0].id
+        steps = steps[1:]
+    for s in steps:
         if not (isinstance(s, ast.Assign) and len(s.targets) == 1 and isinstance(s.targets[0], ast.Name)
                 and isinstance(s.value, ast.Call) and isinstance(s.value.func, ast.Attribute) and s.value.func.attr == 'get'
                 and _self_attr(s.value.func.value) and len(s.value.args) == 2
@@ -138,8 +144,9 @@ def r34_layer_order(ctx):
               'setopt writes no layer other than default/force', 'only self.force[...] and self.allowed[...] are subscripted for store',
               'setopt also stores into self.%s' % (_self_attr(others[0].value) if others else ''))
     rets = [n for n in setopt.own_nodes() if isinstance(n, ast.Return)]
-    okg = len(rets) == 1 and isinstance(rets[0].value, ast.Name)
+    okg = bool(rets) and all(isinstance(r.value, ast.Name) for r in rets) and len({r.value.id for r in rets}) == 1
     if okg:
+        # every return (one, or several after early exits) hands back the one local read from self.getopt(optname)
         v = rets[0].value.id
         asg = [n for n in setopt.own_nodes() if isinstance(n, ast.Assign) and isinstance(n.targets[0], ast.Name)
                and n.targets[0].id == v]
